@@ -10,15 +10,15 @@ RULE = ("formats = 40 fixed small ones + small formats drawn from the seed (opti
         "arguments, command names, base levels) x strict/lenient.  (a) token sequences over a per-format adversarial alphabet "
         "('', '-', '--', '---', '--=', '-=', known/unknown long and short options with and without '=value', '=-5', a second '=', "
         "groups of 2-4 short options with junk and values, negative numbers, 'null', words, command names/aliases): exhaustive to "
-        "length 2 over the whole alphabet and to length 3 over one representative per token class (quick; 3 and 4 thorough), "
-        "seeded random to length 6.  (b) single-fault mutations of valid C01 lines (any spelling, groups included): an unknown long "
+        "length 2 over the whole alphabet and at length 3 over one representative per token class (10 tokens; thorough: 22 "
+        "tokens at length 3, 10 at length 4), seeded random of length 3-6 over the whole alphabet.  (b) single-fault mutations of valid C01 lines (any spelling, groups included): an unknown long "
         "/ short option inserted between two items or appended to a group of flags, a required argument dropped, a surplus "
         "positional added, the value of a value-requiring option stripped, a typed value replaced by an unconvertible text, a "
         "value attached to a flag - the oracle demands the error kind the statement fixes for that fault.  Non-trivial = reaches "
         "an error or sets a value; distinct by (format, mode, tokens)")
 TRUSTED = []
 ASSUMPTIONS = ["formats are valid (built through ArgsFormat), option/argument objects are valid (C07)",
-               "exhaustive depth is 3 (quick) / 4 (thorough) over the reduced alphabet, not the 6 of the quantifier; lengths 3..6 are sampled"]
+               "exhaustive depth is 2 over the whole alphabet and 3 (quick) / 4 (thorough) over a reduced one, not the 6 of the quantifier; lengths 3..6 are sampled"]
 
 EXTRA = ["zz", "z"]
 
@@ -57,7 +57,7 @@ def alphabet(levels):
     return out
 
 
-def reduced_alphabet(levels, size=11):
+def reduced_alphabet(levels, size=10):
     """one representative per token class (what the token loop and the option handlers distinguish)"""
     opts = G.fmt_options(levels)
     toks = ["", "-", "--", "--zz", "-z", "x"]
@@ -87,6 +87,7 @@ def reduced_alphabet(levels, size=11):
     if len(flags) > 1:
         more.append("-" + flags[1]["short"] if flags[1]["short"] else "--" + flags[1]["long"])
     more += ["-5", "null", "--=", "5"]
+    more += alphabet(levels)            # then whatever else the full alphabet holds, in its order
     for t in more:
         if len(toks) >= size:
             break
@@ -205,7 +206,7 @@ def mutation_stream(rng, tier, fmts):
 
 
 def formats(rng, tier):
-    n = {"quick": 12, "thorough": 60, "search": 4}[tier]
+    n = {"quick": 12, "thorough": 24, "search": 4}[tier]
     fmts = [({"f": fi}, lv) for fi, lv in enumerate(G.SMALL_FORMATS)]
     for i in range(n):
         lv = G.rand_levels(rng, nopts=rng.randint(1, 3), nargs=rng.randint(0, 2), ncn=rng.choice([0, 0, 1]), nbase=rng.choice([0, 0, 1]),
@@ -215,7 +216,6 @@ def formats(rng, tier):
 
 
 def gen(rng, tier, info):
-    depth = {"quick": 2, "thorough": 3, "search": 2}[tier]
     nrand = {"quick": 20000, "thorough": 200000, "search": 10000}[tier]
     fmts = formats(rng, tier)
     cases = []
@@ -225,28 +225,32 @@ def gen(rng, tier, info):
         c = {"len": lenient, "toks": list(toks)}
         c.update(fref)
         cases.append(c)
+    # exhaustive: the whole alphabet to length 2; one representative per token class (10 tokens) at length 3 (quick);
+    # thorough: 22 tokens at length 3 and 10 at length 4
+    plan = {"quick": [(10, 3)], "thorough": [(22, 3), (10, 4)], "search": []}[tier]
     for fref, levels in fmts:
         al = alphabet(levels)
-        red = reduced_alphabet(levels, 11 if tier != "thorough" else 13)
-        for k in range(0, depth + 2):
-            use = al if k <= depth else red
-            for seq in itertools.product(use, repeat=k):
-                if k > depth or True:
-                    for lenient in (0, 1):
-                        add(fref, lenient, seq)
-        hist[str(fref.get("f", "generated"))] = [len(al), len(red)]
+        for k in range(0, 3):
+            for seq in itertools.product(al, repeat=k):
+                for lenient in (0, 1):
+                    add(fref, lenient, seq)
+        for size, k in plan:
+            for seq in itertools.product(reduced_alphabet(levels, size), repeat=k):
+                for lenient in (0, 1):
+                    add(fref, lenient, seq)
+        hist[str(fref.get("f", "generated"))] = [len(al)] + [min(size, len(reduced_alphabet(levels, size))) for size, _ in plan]
     n_ex = len(cases)
     mut, mhist = mutation_stream(rng, tier, fmts) if tier != "search" else ([], {})
     cases += mut
     for _ in range(nrand):
         fref, levels = fmts[rng.randrange(len(fmts))]
         al = alphabet(levels)
-        k = rng.randint(depth + 1, 6)
+        k = rng.randint(3, 6)
         add(fref, rng.randint(0, 1), [rng.choice(al) for _ in range(k)])
     info["exhaustive"] = True
     info["distribution"] = {"formats": len(fmts), "generated_formats": sum(1 for f, _ in fmts if "lv" in f),
-                            "exhaustive_cases": n_ex, "random_cases": nrand, "alphabet_sizes (full, reduced)": hist,
-                            "exhaustive_len_full_alphabet": depth, "exhaustive_len_reduced_alphabet": depth + 1,
+                            "exhaustive_cases": n_ex, "random_cases": nrand, "alphabet_sizes (full, reduced...)": hist,
+                            "exhaustive_len_full_alphabet": 2, "exhaustive (alphabet size, length) reduced": plan,
                             "single_fault_mutations": len(mut), "by_fault": mhist}
     return cases
 
